@@ -142,3 +142,62 @@
 		let raw = kp.public_key_raw();
 		assert!(raw.len() == 4 && raw[0] == pk[0] && raw[1] == pk[1] && raw[2] == pk[2] && raw[3] == pk[3]);
 	}
+
+	// ------------------------------------------------------------------ thorough tier: larger shapes
+	/// @ob sign_der.wrap.long_form @props C01 @kind bounded @tier thorough @timeout 1800 @mem 24
+	/// @bound "to-be-signed body = OCTET STRING of 130 symbolic bytes (long-form lengths), signature of 64 symbolic bytes" @fns rcgen::KeyPair::sign_der,rcgen::KeyPair::sign
+	#[kani::proof]
+	#[kani::unwind(140)]
+	fn sign_der_wrap_long_form() {
+		static mut BIG_SIG: [u8; 64] = [0; 64];
+		static mut SEEN_BIG: [u8; 136] = [0; 136];
+		static mut SEEN_BIG_LEN: usize = 0;
+		struct Rk2;
+		impl RemoteKeyPair for Rk2 {
+			fn public_key(&self) -> &[u8] { &[1, 2, 3, 4] }
+			fn sign(&self, msg: &[u8]) -> Result<Vec<u8>, Error> {
+				unsafe {
+					SEEN_BIG_LEN = msg.len();
+					let mut i = 0;
+					while i < msg.len() && i < 136 { SEEN_BIG[i] = msg[i]; i += 1; }
+					Ok(BIG_SIG.to_vec())
+				}
+			}
+			fn algorithm(&self) -> &'static SignatureAlgorithm { &PKCS_ED25519 }
+		}
+		let kp = match KeyPair::from_remote(Box::new(Rk2)) { Ok(k) => k, Err(_) => { kani::assume(false); unreachable!() } };
+		let body: [u8; 130] = kani::any();
+		let sig: [u8; 64] = kani::any();
+		unsafe { BIG_SIG = sig; }
+		kani::cover!(true, "reachable");
+		let der = match kp.sign_der(|w| { w.next().write_bytes(&body); Ok(()) }) { Ok(d) => d, Err(_) => { assert!(false); return; } };
+		// tbs = 30 81 85 | 04 81 82 <130 bytes>  (136 bytes); outer = 30 81 D2 | tbs | alg (7) | 03 41 00 <64 bytes> (67)
+		unsafe {
+			assert!(SEEN_BIG_LEN == 136);
+			assert!(SEEN_BIG[0] == 0x30 && SEEN_BIG[1] == 0x81 && SEEN_BIG[2] == 133 && SEEN_BIG[3] == 0x04 && SEEN_BIG[4] == 0x81 && SEEN_BIG[5] == 130);
+			let mut i = 0;
+			while i < 130 { assert!(SEEN_BIG[6 + i] == body[i]); i += 1; }
+			let mut i = 0;
+			while i < 136 { assert!(der[3 + i] == SEEN_BIG[i], "embedded bytes = signed bytes"); i += 1; }
+		}
+		assert!(der.len() == 3 + 136 + 7 + 67 && der[0] == 0x30 && der[1] == 0x81 && der[2] == 210);
+		assert!(der[146] == 0x03 && der[147] == 65 && der[148] == 0);
+		let mut i = 0;
+		while i < 64 { assert!(der[149 + i] == sig[i]); i += 1; }
+	}
+
+	/// @ob spki.export.p256_point @props C11,C02 @kind bounded @tier thorough @timeout 1200 @mem 16 @bound "65-byte symbolic uncompressed P-256 point" @fns rcgen::serialize_public_key_der
+	#[kani::proof]
+	#[kani::unwind(100)]
+	fn spki_export_p256_point() {
+		let pk: [u8; 65] = kani::any();
+		let k = SubjectPublicKeyInfo { alg: &PKCS_ECDSA_P256_SHA256, subject_public_key: pk.to_vec() };
+		kani::cover!(true, "reachable");
+		let der = yasna::construct_der(|w| serialize_public_key_der(&k, w));
+		let hdr = [0x30, 89, 0x30, 0x13, 0x06, 0x07, 0x2a, 0x86, 0x48, 0xce, 0x3d, 0x02, 0x01, 0x06, 0x08, 0x2a, 0x86, 0x48, 0xce, 0x3d, 0x03, 0x01, 0x07, 0x03, 66, 0];
+		assert!(der.len() == hdr.len() + 65);
+		let mut i = 0;
+		while i < hdr.len() { assert!(der[i] == hdr[i]); i += 1; }
+		let mut i = 0;
+		while i < 65 { assert!(der[hdr.len() + i] == pk[i]); i += 1; }
+	}
